@@ -140,3 +140,117 @@ Theorem C16_canonicalize_keeps_scheme : forall idna_raw p u u',
   Verif.Model.Canon.Canonicalize idna_raw p u = Some u' -> Verif.Model.Url.u_scheme u' = Verif.Model.Url.u_scheme u.
 Proof. exact Verif.Proofs.CanonTotal.Canonicalize_scheme. Qed.
 Print Assumptions C16_canonicalize_keeps_scheme.
+
+(* ---------- sort-query (Proofs/OptionSort.v) ---------- *)
+From Verif Require Import Proofs.OptionSort Proofs.SearchParamsProofs.
+From Coq Require Import Permutation.
+
+(* sort-query is the last step: every profile (any removal flags, repeated decoding or not) gives the result of the same
+   profile without sort-query followed by the sort step; errors and panics are the same *)
+Theorem C16_sort_query_is_last_step : forall idna_raw p x,
+  ProfileParse idna_raw p x =
+  match ProfileParse idna_raw (pwith_sortQuery p NoSort) x with
+  | CUrl v => CUrl (sort_step (p_cfg p) (p_sortQuery p) v) | other => other end.
+Proof. exact ProfileParse_sort_factor. Qed.
+Print Assumptions C16_sort_query_is_last_step.
+
+(* the sort step touches the query only *)
+Theorem C16_sort_step_frame : forall c k u, same_but_query u (sort_step c k u).
+Proof. exact sort_step_frame. Qed.
+Print Assumptions C16_sort_step_frame.
+
+(* sort-query only reorders: the parameter list of the result is THE stable sort of the parser's list - a permutation,
+   sorted by name (by name then value), entries with equal keys in their original order - the query is its
+   serialization, and (outside the known finding D8b: no %HH triple in a decoded name or value, no Latin-1 override)
+   reading the query back gives that list, so the multiset of decoded pairs is kept *)
+Theorem C16_sort_query_effect : forall idna_raw p x u',
+  p_repeated p = false -> sorting (p_sortQuery p) ->
+  ProfileParse idna_raw p x = CUrl u' ->
+  exists v, let c := p_cfg p in let l := sp_init c (Query v) in let k := p_sortQuery p in
+    ProfileParse idna_raw (pwith_sortQuery p NoSort) x = CUrl v /\
+    same_but_query v u' /\ (forall e, Href u' e = Href (set_query v (u_query u')) e) /\
+    u_sp u' = Some (sort_fun k l) /\ Permutation l (sort_fun k l) /\
+    (k = SortKeys -> name_sorted (sort_fun k l) /\
+       forall n, filter (fun p : pair => str_eqb (fst p) n) (sort_fun k l) = filter (fun p => str_eqb (fst p) n) l) /\
+    (k = SortParameter -> abs_sorted (sort_fun k l) /\
+       forall n, filter (fun p : pair => str_eqb (fst p ++ snd p) n) (sort_fun k l) =
+                 filter (fun p => str_eqb (fst p ++ snd p) n) l) /\
+    Query u' = sp_string c (sort_fun k l) /\
+    (u_query v = None -> u_query u' = None) /\ (u_query v <> None -> u_query u' = Some (sp_string c (sort_fun k l))) /\
+    (c_latin1 c = false -> forallb (pair_ok c) l = true ->
+       sp_init c (Query u') = sort_fun k l /\ Permutation l (sp_init c (Query u'))).
+Proof. exact sort_query_effect. Qed.
+Print Assumptions C16_sort_query_effect.
+
+(* known finding D8b as a theorem: http://h/?a=%2541 - the decoded pair (a, %41) is written a=%41 and reads back as (a, A) *)
+Theorem C16_sort_query_multiset_refuted_D8b :
+  exists x u0 u', ProfileParse idna_id0 (pwith_sortQuery prof_WhatWgSortQuery NoSort) x = CUrl u0 /\
+    ProfileParse idna_id0 prof_WhatWgSortQuery x = CUrl u' /\
+    sp_init default_cfg (Query u0) = [([97], [37;52;49])] /\
+    sp_init default_cfg (Query u') = [([97], [65])] /\
+    ~ Permutation (sp_init default_cfg (Query u0)) (sp_init default_cfg (Query u')).
+Proof. exact sort_query_multiset_refuted. Qed.
+Print Assumptions C16_sort_query_multiset_refuted_D8b.
+
+(* ---------- replaced percent-encode sets (Proofs/OptionSets*.v) ---------- *)
+From Verif Require Import Model.Sets Model.Percent Proofs.OptionSetsBase Proofs.OptionSets Proofs.OptionSetsDots Proofs.OptionSetsPath.
+
+(* each set option governs exactly its component and scheme class, for every input, base, URL under a state override
+   (the setters) and every other option - no side condition: same kind of result and same error, and
+   - path set: the records agree on everything but the path component;
+   - query set: EQUAL results when the result's scheme is special, else agreement on everything but the query;
+   - special-query set: the mirror image; fragment sets: the same for the fragment *)
+Theorem C16_path_set_governs_path : forall idna_raw c s x b u0 ov,
+  res_rel agree_except_path (BasicParser idna_raw (with_pathSet c s) x b u0 ov) (BasicParser idna_raw c x b u0 ov).
+Proof. exact pathSet_BasicParser. Qed.
+Print Assumptions C16_path_set_governs_path.
+Theorem C16_query_set_governs_nonspecial_query : forall idna_raw c s x b u0 ov,
+  res_rel (query_class c false) (BasicParser idna_raw (with_querySet c s) x b u0 ov) (BasicParser idna_raw c x b u0 ov).
+Proof. exact querySet_BasicParser. Qed.
+Print Assumptions C16_query_set_governs_nonspecial_query.
+Theorem C16_special_query_set_governs_special_query : forall idna_raw c s x b u0 ov,
+  res_rel (query_class c true) (BasicParser idna_raw (with_squerySet c s) x b u0 ov) (BasicParser idna_raw c x b u0 ov).
+Proof. exact squerySet_BasicParser. Qed.
+Print Assumptions C16_special_query_set_governs_special_query.
+Theorem C16_fragment_set_governs_nonspecial_fragment : forall idna_raw c s x b u0 ov,
+  res_rel (fragment_class c false) (BasicParser idna_raw (with_fragSet c s) x b u0 ov) (BasicParser idna_raw c x b u0 ov).
+Proof. exact fragSet_BasicParser. Qed.
+Print Assumptions C16_fragment_set_governs_nonspecial_fragment.
+Theorem C16_special_fragment_set_governs_special_fragment : forall idna_raw c s x b u0 ov,
+  res_rel (fragment_class c true) (BasicParser idna_raw (with_sfragSet c s) x b u0 ov) (BasicParser idna_raw c x b u0 ov).
+Proof. exact sfragSet_BasicParser. Qed.
+Print Assumptions C16_special_fragment_set_governs_special_fragment.
+
+(* what a replaced set does where it applies: an ASCII code point of the set is written %XX (upper-case hex), one outside
+   it stays literal *)
+Theorem C16_set_members_are_escaped : forall c r t, r < 128 ->
+  percentEncodeRune c r (Some t) = if RuneShouldBeEncoded t r then [37; hex_upper (r / 16); hex_upper (r mod 16)] else [r].
+Proof. exact per_ascii. Qed.
+Print Assumptions C16_set_members_are_escaped.
+
+(* the path keeps its structure (same segments, each the encoding of the same input code points) when both path sets
+   leave '%', '2', 'e', 'E' alone and, for file URLs, the drive-letter bytes; each of these bytes is shown necessary
+   (Proofs/OptionSetsPath.v dot_safe_needed, drive_safe_needed, safe_lists_needed: the path set is applied before
+   dot-segment and drive-letter recognition) *)
+Theorem C16_path_set_keeps_structure : forall idna_raw c s x u1 u2,
+  Parse idna_raw (with_pathSet c s) x = PUrl u1 -> Parse idna_raw c x = PUrl u2 ->
+  dot_safe s = true -> dot_safe (c_pathSet c) = true ->
+  (str_eqb (u_scheme u1) s_file = true -> drive_safe s = true /\ drive_safe (c_pathSet c) = true) ->
+  Forall2 (seg_rel (with_pathSet c s) c (run_input c x None)) (u_path u1) (u_path u2) /\ u_opaque u1 = u_opaque u2.
+Proof. exact with_pathSet_structure. Qed.
+Print Assumptions C16_path_set_keeps_structure.
+
+(* ---------- an added special scheme (Proofs/OptionSpecialEffect.v) ---------- *)
+From Verif Require Import Proofs.RecordInv Proofs.MachineInv Proofs.OptionSpecialEffect.
+
+(* for every input: a URL whose scheme the configured table lists is special - host required, list path that is not
+   empty - and its port is never the table's port for the scheme (default-port elision) *)
+Theorem C16_added_special_scheme : forall idna_raw c t x u dp,
+  H3 idna_raw -> cfg_okm (with_special c t) = true ->
+  Parse idna_raw (with_special c t) x = PUrl u -> assoc (u_scheme u) t = Some dp ->
+  IsSpecialScheme (with_special c t) u = true /\
+  u_opaque u = false /\ u_path u <> [] /\
+  (exists h, u_host u = Some h /\ (str_eqb (u_scheme u) s_file = true \/ h <> [])) /\
+  u_port u <> Some dp /\ (dp <> [] -> Port u <> dp).
+Proof. exact special_all_inputs. Qed.
+Print Assumptions C16_added_special_scheme.
